@@ -80,3 +80,36 @@ Theorem uem_refused_iff scale u t : uem_lines scale u t = None <-> uri_has_space
 Proof. unfold uem_lines. destruct (uri_has_space u); split; intro H; try reflexivity; discriminate. Qed.
 Theorem uem_one_line_per_segment scale u t ls : uem_lines scale u t = Some ls -> length ls = length t.
 Proof. unfold uem_lines. destruct (uri_has_space u); [discriminate|]. intro H. inversion H. now rewrite map_length. Qed.
+
+(* ---- chronological order of track iteration, hence of RTTM / LAB lines ---- *)
+From PV Require Import Proofs.SortedP Proofs.DictP Proofs.AnnotationInvP.
+Definition sle (a b : seg) : Prop := a = b \/ slt a b.
+Lemma StronglySorted_app {A} (R : A -> A -> Prop) l1 l2 :
+  StronglySorted R l1 -> StronglySorted R l2 -> (forall x y, In x l1 -> In y l2 -> R x y) ->
+  StronglySorted R (l1 ++ l2).
+Proof.
+  induction l1 as [|a l1 IH]; intros S1 S2 H; [exact S2|]. cbn [app]. inversion S1 as [|? ? S1' F]; subst.
+  constructor; [apply IH; [assumption | assumption | intros x y Hx Hy; apply H; [now right | assumption]]|].
+  apply Forall_app. split; [exact F|]. rewrite Forall_forall. intros y Hy. apply H; [now left | exact Hy].
+Qed.
+Theorem itertracks_chronological eps m : WF eps m ->
+  StronglySorted sle (map (fun x : triple => fst (fst x)) (itertracks_m m)).
+Proof.
+  intro W. pose proof (wf_sorted _ _ W) as Hs. clear W. unfold itertracks_m, skeys in *.
+  induction m as [|[s d] m IH]; cbn [flat_map map]; [constructor|].
+  cbn [map fst] in Hs. apply ssorted_inv in Hs as [Hs F]. rewrite map_app. apply StronglySorted_app.
+  - cbn [fst snd]. rewrite map_map. cbn [fst]. induction (sorted_tracks d) as [|x l IHl]; cbn [map]; [constructor|].
+    constructor; [exact IHl|]. rewrite Forall_forall. intros y Hy. apply in_map_iff in Hy as [z [<- _]]. now left.
+  - now apply IH.
+  - intros x y Hx Hy. cbn [fst snd] in Hx. rewrite map_map in Hx. cbn [fst] in Hx. apply in_map_iff in Hx as [z [<- _]].
+    apply in_map_iff in Hy as [w [<- Hw]]. apply in_flat_map in Hw as [[s' d'] [Hm Hw]]. cbn [fst snd] in Hw.
+    apply in_map_iff in Hw as [v [<- _]]. cbn [fst]. right. rewrite Forall_forall in F. apply F.
+    apply in_map_iff. exists (s', d'). tauto.
+Qed.
+(* RTTM / LAB lines are the lines of the tracks in that order, one each *)
+Theorem rttm_lines_chronological eps scale a ls : WF eps (a_tracks a) -> rttm_lines eps scale a = Some ls ->
+  List.length ls = List.length (itertracks a) /\
+  StronglySorted sle (map (fun x : triple => fst (fst x)) (itertracks a)).
+Proof.
+  intros W H. split; [now apply (rttm_one_line_per_track eps scale a ls) | now apply (itertracks_chronological eps)].
+Qed.
